@@ -79,6 +79,16 @@ def stmt_sum_ext(n, a, b, A, Bp, m=None):
     return hyp, A(m) == Bp(m)
 
 
+def stmt_sum_nonneg(n, a, A):
+    hyp = z3.And(n >= 0, prefix_def(A, n, a), forall_range(0, n, lambda i: a(i) >= 0, 'i'))
+    return hyp, A(n) >= 0
+
+
+def stmt_sum_zero(n, a, A):
+    hyp = z3.And(n >= 0, prefix_def(A, n, a), forall_range(0, n, lambda i: a(i) == 0, 'i'))
+    return hyp, A(n) == 0
+
+
 def L2a_perm_sum(n, pi, pinv, f, A, Bp):
     """Lean-certified (lemmas/L2.lean, Equiv.sum_comp): pi a bijection of [0,n) with inverse pinv,
     A = prefix sums of f, Bp = prefix sums of f o pi   =>   A(n) = Bp(n)"""
@@ -221,6 +231,37 @@ class LemmaSumExt(_LoopLemma):
     loops = {0: Loop(inv=lambda s, l: [z3.And(0 <= T(l.j), T(l.j) <= s.m), s.A(T(l.j)) == s.Bp(T(l.j))])}
 
 
+class LemmaSumNonneg(_LoopLemma):
+    """a sum of non-negative terms is non-negative"""
+    target = '@verif/lemmas/c13_lemmas.py::lemma_sum_sign'
+    label = 'nonneg'
+    zero = False
+
+    def _mk(self, vc):
+        n = z3.Int('n')
+        a, A = [z3.Function(x, I, R) for x in ('a', 'A')]
+        hyp, goal = (stmt_sum_zero if self.zero else stmt_sum_nonneg)(n, a, A)
+        vc.fin_bounds.append(n)
+        s = NS(n=n, a=a, A=A, hyp=hyp, goal=goal, args=(SInt(n),))
+        vc._lemma_s = s
+        return s
+
+    def _instances(self, s, j):
+        return [z3.Implies(z3.And(0 <= j, j < s.n), z3.And(prefix_inst(s.A, s.a, j), (s.a(j) == 0) if self.zero else (s.a(j) >= 0)))]
+
+    @property
+    def loops(self):
+        if self.zero:
+            return {0: Loop(inv=lambda s, l: [z3.And(0 <= T(l.j), T(l.j) <= s.n), s.A(T(l.j)) == 0])}
+        return {0: Loop(inv=lambda s, l: [z3.And(0 <= T(l.j), T(l.j) <= s.n), s.A(T(l.j)) >= 0])}
+
+
+class LemmaSumZero(LemmaSumNonneg):
+    """a sum of zero terms is zero"""
+    label = 'zero'
+    zero = True
+
+
 def use(stmt):
     hyp, goal = stmt
     return z3.Implies(hyp, goal)
@@ -286,7 +327,21 @@ class Quantile(Contract):
     def lemmas_at_exit(self, s, result):
         vc = cur()
         if not s.has('kstar') or 'np.cumsum' not in vc.libcalls:
-            return []                      # alpha == 0 branch: handled directly
+            # the branch that returns the minimum: the property clause is stated all the same (weights over the INPUT order)
+            n, q, alpha = s.n, result.t, s.alpha
+            S = s.SW(n)
+            what = lambda i: s.wf(i) / S
+            WLE, WLT = vc.fresh_fn('WLE', I, R), vc.fresh_fn('WLT', I, R)
+            le_t = lambda i: z3.If(s.xf(i) <= q, what(i), 0)
+            lt_t = lambda i: z3.If(s.xf(i) < q, what(i), 0)
+            vc.assume(prefix_def(WLE, n, le_t), prefix_def(WLT, n, lt_t))
+            s.spec = (WLE, WLT, q)
+            vc.cut('q is the minimum of the sample', forall_range(0, n, lambda i: q <= s.xf(i), 'i'))
+            vc.cut('no value is below the minimum: every term of the strict sum is zero; every term of the other is >= 0',
+                   z3.And(forall_range(0, n, lambda i: lt_t(i) == 0, 'i'), forall_range(0, n, lambda i: le_t(i) >= 0, 'i')))
+            vc.assume(use(stmt_sum_zero(n, lt_t, WLT)), use(stmt_sum_nonneg(n, le_t, WLE)))
+            vc.cut('weights at the minimum', z3.And(WLT(n) == 0, WLE(n) >= 0))
+            return []
         n, k, q, alpha = s.n, s.kstar, result.t, s.alpha
         p = vc.libcalls['np.argsort'][0]
         cs = vc.libcalls['np.cumsum'][0]
@@ -329,12 +384,9 @@ class Quantile(Contract):
         vc = cur()
         q = result.t
         out = [('q is an element of the sample', exists_range(0, s.n, lambda i: q == s.xf(i), 'i'))]
-        if s.has('spec'):
-            WLE, WLT, yk = s.spec
-            out += [('normalised weight of values <= q is at least alpha', WLE(s.n) >= s.alpha),
-                    ('normalised weight of values < q is at most alpha', WLT(s.n) <= s.alpha)]
-        else:
-            out += [('alpha = 0: q is the minimum of the sample', forall_range(0, s.n, lambda i: q <= s.xf(i), 'i'))]
+        WLE, WLT, yk = s.spec
+        out += [('normalised weight of values <= q is at least alpha', WLE(s.n) >= s.alpha),
+                ('normalised weight of values < q is at most alpha', WLT(s.n) <= s.alpha)]
         return out
 
 
@@ -546,9 +598,12 @@ class _SS:
 
 
 class _Cls:
-    """the class object `cls` of the classmethods: callees under contract are stubs"""
+    """the class object `cls` of the classmethods: callees under contract are stubs; class-level constants are read
+    from the real class body in the tree"""
 
     def __init__(self, **kw):
+        from pyvc.instrument import class_constants
+        self.__dict__.update(class_constants('elfi/methods/utils.py::GMDistribution', cur().repo))
         self.__dict__.update(kw)
 
 
@@ -829,7 +884,7 @@ CONTRACTS = [Quantile('given'), Quantile('none'), NormalizeWeights(), ComputeEss
              NormalizeParams('given'), NormalizeParams('none'),
              GMPdf(1, 0), GMPdf(1, 1), GMPdf(2, 1), GMPdf(2, 2), GMLogPdf(),
              GMRvs(1, True), GMRvs(1, False), GMRvs(2, True), GMRvs(1, True, size_none=True),
-             LemmaLePrefix(), LemmaLtPrefix(), LemmaScaleSum(), LemmaMonotoneCum(), LemmaSumExt(), LemmaSqPositive(),
+             LemmaLePrefix(), LemmaLtPrefix(), LemmaScaleSum(), LemmaMonotoneCum(), LemmaSumExt(), LemmaSqPositive(), LemmaSumNonneg(), LemmaSumZero(),
              LemmaQuantileMonotone(), LemmaScaleInvariance()]
 TRUSTED_BASE = ['pyvc engine: proxies, loop cutting, numpy spec table (sum/cumsum/dot/average = mathematical finite sum by prefix recursion; argsort = a sorting permutation, nothing about ties; mask select / where = order-preserving bijection)',
                 'L2a permutation invariance of a finite sum (Mathlib Equiv.sum_comp; Lean file lemmas/L2.lean, transcription to SMT by hand)',
